@@ -116,6 +116,7 @@ func runSeq(run *hx.Run, seq int, ops []dbx.Op, gen func() (dbx.Op, bool), repli
 			} else {
 				post = dbx.TakeDump(db)
 			}
+			or.Ops = done
 			or.Observe(i, op, res, pre, post, db)
 			if b != nil {
 				rb := dbx.Apply(b, op.ToUpdate())
@@ -189,6 +190,33 @@ end:
 	}
 }
 
+// probeNonUTF8 replays the F-C03 witness on the real code: a KV key that is not
+// valid UTF-8 does not survive the JSON snapshot (encoding/json coerces invalid
+// bytes to U+FFFD), so a restored replica answers a later write to that key
+// differently from the replica that took the snapshot.
+func probeNonUTF8(run *hx.Run) {
+	for _, key := range []string{"\xff", "k\xfe\x01", "\xc3\x28"} {
+		a := drummer.NewDB(0, 1)
+		w1 := dbx.Op{Op: "kv", Key: key, Value: "v", Inst: 1, Fin: true}
+		w2 := dbx.Op{Op: "kv", Key: key, Value: "w", Inst: 2}
+		dbx.Apply(a, w1.ToUpdate())
+		data, _ := dbx.Snapshot(a)
+		b, p := dbx.Restore(data)
+		if p {
+			continue
+		}
+		ra, rb := dbx.Apply(a, w2.ToUpdate()), dbx.Apply(b, w2.ToUpdate())
+		ha, _ := dbx.Hash(a)
+		hb, _ := dbx.Hash(b)
+		run.Count("c03:non_utf8_probe")
+		if ra != rb || ha != hb {
+			run.Violate(hx.Violation{Property: "C03", Clause: "snapshot_equivalent", Signature: "non-utf8-kv-key-lost-by-json-snapshot",
+				What: fmt.Sprintf("KV key %q (not valid UTF-8): straight replica answers %s, the one restored from its snapshot %s", key, ra, rb), Seq: -1,
+				Ops: []interface{}{map[string]interface{}{"op": "kv", "key_bytes": []byte(key), "value": "v", "inst": 1, "fin": true}, "snapshot+restore", map[string]interface{}{"op": "kv", "key_bytes": []byte(key), "value": "w", "inst": 2}}})
+		}
+	}
+}
+
 func min(a, b int) int {
 	if a < b {
 		return a
@@ -246,6 +274,9 @@ func main() {
 			runSeq(run, i, ops, nil, *replicas, len(ops)/2)
 		}
 		return
+	}
+	if *replicas {
+		probeNonUTF8(run)
 	}
 	for s := 0; s < *n; s++ {
 		r := hx.Rng(*seed, s)
